@@ -85,6 +85,14 @@ class Plain:
     a: int
     def __init__(self, a): self.a = a
 class Empty: pass
+@dataclasses.dataclass
+class CallDC:                 # a structured class whose instances can be called
+    a: int
+    def __call__(self, x): return x
+class CallPlain:
+    a: int
+    def __init__(self, a): self.a = a
+    def __call__(self): return self.a
 class Color(enum.Enum):
     RED = 1
 class Level(enum.IntEnum):
@@ -161,7 +169,7 @@ def catalogue():
         add(c.__name__, c)
     for n in ("DC", "FDC", "SDC", "NT", "CNT", "TD", "TDN", "Plain", "Empty", "Color", "Level", "Tag", "MyStr", "MyInt", "MyList", "MyDict",
               "MyDate", "MyTuple", "SubDC", "MyMapping", "MyIter", "Box", "Page", "IntPage", "TDReq", "TDInh", "GDC", "GFDC", "GNT",
-              "SubNT", "GList"):
+              "SubNT", "GList", "CallDC", "CallPlain"):
         add(n, g[n])
     add("Page[int]", g["Page"][int]); add("GDC[int]", g["GDC"][int]); add("GNT[int]", g["GNT"][int]); add("GList[int]", g["GList"][int])
     add("generator", type(x for x in ()))
@@ -270,7 +278,8 @@ def facts(o):
             return issubclass(c, b)
         except TypeError:
             return False
-    f = {"isclass": r is not None and r not in (cabc.Callable,) and not sub(r, cabc.Callable) or (r is not None and dataclasses.is_dataclass(r)),
+    # (a class whose instances can be called is a class like any other; Callable itself and `type` are the callable forms)
+    f = {"isclass": r is not None and r is not cabc.Callable and r is not type,
          "plainclass": plain,
          "sub": {k: (sub(r, b) if r is not None else False) for k, b in BASES.items()},
          "direct": {k: (sub(o, b) if plain else False) for k, b in DIRECT.items()},
